@@ -223,6 +223,7 @@ pub fn prop() -> Prop {
         assumptions: &["the per-player comparison bound_i >= regret_i is not implied by the theorem and is not asserted; only totals are compared"],
         post: Some(targeted),
         watchdog_s: 120,
+        hang_is_violation: false,
         shrink_iters: 400,
     }
 }
